@@ -432,7 +432,8 @@ func c20RacePass(res *eng.Result, ss *sigSet) {
 						break
 					}
 				}
-				ss.add("C20/race/"+loc, fmt.Sprintf("GOMAXPROCS=%d: %s", procs, trunc200(rep)))
+				// which access is reported first varies from run to run: one signature, the place in the text
+				ss.add("C20/race/data-race", fmt.Sprintf("GOMAXPROCS=%d: at %s: %s", procs, loc, trunc200(rep)))
 			}
 		} else if err != nil {
 			ss.add("C20/race/child-failed", fmt.Sprintf("%v: %s", err, trunc200(out)))
